@@ -18,7 +18,7 @@ prop(
              thorough=dict(checks=608, shards=8, timeout=5400)),
         dict(run="^TestPropRace$",
              quick=dict(checks=48, shards=4, timeout=900),
-             thorough=dict(checks=608, shards=8, timeout=7200)),
+             thorough=dict(checks=304, shards=8, timeout=7200)),
     ],
     rule="layer 1: one evaluation = one arrival order (30 per input quick, 200 thorough; serial order is canonical, the reverse "
          "order is always included) of the real report stream produced by pint's checks on a generated input (2-5 rule files "
